@@ -119,7 +119,7 @@ Definition enc_decl (s : sys) : list Z :=
       ++ (Z.of_nat (length (s_writes s)) :: zs (s_writes s)).
 
 (* the resources a probe looks at *)
-Definition universe : list N := [R_ENT; R_LAZY; R_STORE 0; R_STORE 1; R_STORE 2; R_STORE 3; R_STORE 4; R_STORE 5].
+Definition universe : list N := [R_ENT; R_LAZY; R_STORE 0; R_STORE 1; R_STORE 2; R_STORE 3; R_STORE 4; R_STORE 5; R_STORE 6; R_STORE 7].
 
 Definition enc_probe (h : handle) : list Z :=
   let '(r, w) := decl h in
